@@ -6,10 +6,12 @@ import (
 	"fmt"
 	"io"
 	"math/rand/v2"
+	"net"
 	"net/http"
 	"sort"
 	"strconv"
 	"strings"
+	"syscall"
 	"time"
 
 	frugal "github.com/Workiva/frugal/lib/go"
@@ -221,7 +223,25 @@ func muxHarness(rc *RunCtx) {
 			}
 		}
 		m.send = func(d *muxDelivery, opid string, frame []byte) {
-			b.Route(inbox+"."+opid, "", nil, frame)
+			suffix := opid
+			if tp.Intn("subj", 6) == 5 {
+				// a responder that answers on some other reply subject of the same inbox:
+				// the frame's own op id still says whose response it is
+				switch k := tp.Intn("subj", 3); {
+				case k == 0 && len(m.calls) > 0:
+					if o := m.calls[tp.Intn("subj", len(m.calls))].opid; o != "" {
+						suffix = o
+					}
+				case k == 1:
+					suffix = "987654321"
+				default:
+					suffix = "zz"
+				}
+				if suffix != opid {
+					rc.Fault("response-on-foreign-reply-subject")
+				}
+			}
+			b.Route(inbox+"."+suffix, "", nil, frame)
 		}
 		m.send503 = func(d *muxDelivery, suffix string) {
 			subj := inbox + "." + suffix
@@ -247,6 +267,14 @@ func muxHarness(rc *RunCtx) {
 			body += strings.Repeat("p", 600)
 		}
 		payload := EncodeFrame(h, []byte(body))
+		if b != nil && c.plan != "canary" && tp.Intn("bstall", 8) == 7 {
+			// the broker stops reading from this client for a while, starting now
+			if bc := b.Conn(0); bc != nil {
+				d := c.timeout * time.Duration(1+tp.Intn("bstall", 15)) / 10
+				bc.StallInbound(d)
+				rc.Fault("broker-ignores-client-for-a-while")
+			}
+		}
 		c.invokeAt, c.invokeStep = s.Now(), s.Step
 		if c.oneway {
 			c.err = tr.Oneway(ctx, payload)
@@ -316,7 +344,12 @@ func muxHarness(rc *RunCtx) {
 			simrt.Recv(siteDone, doneC)
 		}
 		// canary: a fresh request answered at once must complete (bounded
-		// progress after the adversarial prefix)
+		// progress after the adversarial prefix; "after": once injected stalls are over)
+		if b != nil {
+			if bc := b.Conn(0); bc != nil && bc.StallUntil > s.Now() {
+				settle(bc.StallUntil - s.Now())
+			}
+		}
 		lastWritten = nil
 		canary = &muxCall{id: len(m.calls), caller: -1, tag: "canary", timeout: 2 * time.Second, plan: "canary"}
 		m.calls = append(m.calls, canary)
@@ -349,7 +382,8 @@ func muxHarness(rc *RunCtx) {
 func (m *muxState) onRequest(frame []byte) {
 	f, err := DecodeFrame(frame)
 	if err != nil {
-		m.rc.Violate("INFRA", "peer-decode", "request", err.Error())
+		// every request handed to the transport is a well-formed frame: what arrives garbled was garbled by it
+		m.rc.Violate("C01", "request-garbled-on-the-wire", m.kind, err.Error())
 		return
 	}
 	c := m.byTag[f.Headers["tag"]]
@@ -639,13 +673,19 @@ func (rt *muxRoundTripper) RoundTrip(req *http.Request) (*http.Response, error) 
 	frame, _ := base64.StdEncoding.DecodeString(string(raw))
 	f, err := DecodeFrame(frame)
 	if err != nil {
-		m.rc.Violate("INFRA", "http-peer-decode", "request", err.Error())
+		m.rc.Violate("C01", "request-garbled-on-the-wire", "http", err.Error())
 		return nil, err
 	}
 	c := m.byTag[f.Headers["tag"]]
 	if c == nil {
 		m.rc.Violate("INFRA", "http-peer-unknown-tag", "request", f.Headers["tag"])
 		return nil, fmt.Errorf("unknown tag")
+	}
+	if c.seen && c.plan == "connection-lost" {
+		// the transport sent the same request again: this time nobody answers
+		m.rc.Probe("http-request-sent-again-after-connection-loss")
+		simrt.Recv(site, req.Context().Done())
+		return nil, req.Context().Err()
 	}
 	c.seen = true
 	wait := func(d time.Duration) bool { // false: the request context ended first
@@ -669,19 +709,21 @@ func (rt *muxRoundTripper) RoundTrip(req *http.Request) (*http.Response, error) 
 	}
 	k := 0
 	if c.plan != "canary" {
-		k = tp.Pick("peer", 5, func(r *rand.Rand) int {
+		k = tp.Pick("peer", 6, func(r *rand.Rand) int {
 			x := r.IntN(100)
 			switch {
 			case x < 40:
 				return 0
-			case x < 60:
+			case x < 57:
 				return 1
-			case x < 75:
+			case x < 70:
 				return 2
-			case x < 90:
+			case x < 82:
 				return 3
+			case x < 91:
+				return 4
 			}
-			return 4
+			return 5
 		})
 	}
 	switch k {
@@ -716,6 +758,15 @@ func (rt *muxRoundTripper) RoundTrip(req *http.Request) (*http.Response, error) 
 			return nil, req.Context().Err()
 		}
 		return respond(200, &stallBody{first: []byte(enc[:len(enc)/2]), req: req, site: simrt.HarnessSite("mux.http-body-stalled")}), nil
+	case 5:
+		// the connection goes away under the request some way into the wait
+		c.plan = "connection-lost"
+		c.sendFault = "http-connection-lost"
+		m.rc.Fault("http-connection-lost-mid-request")
+		if !wait(c.timeout * time.Duration(tp.Intn("peer", 10)) / 10) {
+			return nil, req.Context().Err()
+		}
+		return nil, []error{io.EOF, io.ErrUnexpectedEOF, &net.OpError{Op: "read", Net: "tcp", Err: syscall.ECONNRESET}, &net.OpError{Op: "write", Net: "tcp", Err: syscall.EPIPE}}[tp.Intn("peer", 4)]
 	default:
 		c.plan = "error-status"
 		c.sendFault = "http-status"
